@@ -30,7 +30,7 @@ TRAD = {"CFS", "GPM", "MGD", "IMGD", "AFD"}
 
 # networks whose features both engines support and whose hydraulics are well conditioned (no disconnected demand, no
 # threshold ties): the agreement checks are restricted to them; the reader validation uses every INP file EPANET accepts
-COMMON = ["examples/networks/Net1.inp", "examples/networks/Net2.inp", "examples/networks/Net3.inp",
+COMMON = ["builtin:net1_noon_rule", "builtin:net1_pressure_control", "examples/networks/Net1.inp", "examples/networks/Net2.inp", "examples/networks/Net3.inp",
           "wntr/tests/networks_for_testing/Todini_Fig2_optCost_CMH.inp", "wntr/tests/networks_for_testing/Todini_Fig2_optCost_GPM.inp",
           "wntr/tests/networks_for_testing/Todini_Fig2_solA_CMH.inp", "wntr/tests/networks_for_testing/Todini_Fig2_solA_GPM.inp",
           "wntr/tests/networks_for_testing/conditional_controls_1.inp", "wntr/tests/networks_for_testing/leaks.inp",
@@ -56,8 +56,20 @@ def _quiet():
 
 
 def _builtin(name):
-    """models built through the API in SI units (no INP file to start from)"""
+    """models built through the API in SI units (no INP file to start from), and Net1 with a control / rule added through the API"""
     import wntr
+    if name.startswith("net1_"):
+        from wntr.network.controls import Rule, Control, ControlAction, TimeOfDayCondition, ValueCondition
+        wn = wntr.network.WaterNetworkModel(os.path.join(repo_root(), "examples/networks/Net1.inp"))
+        wn.options.time.duration = 24 * 3600
+        p = wn.get_link("122")
+        if name == "net1_noon_rule":          # a clock time in the noon hour, written to [RULES]
+            wn.add_control("r_noon", Rule(TimeOfDayCondition(wn, ">=", 12 * 3600 + 1800), [ControlAction(p, "status", 0)], [ControlAction(p, "status", 1)], name="r_noon"))
+        else:                                # a junction-pressure condition, written to [CONTROLS] in psi or m
+            j = wn.get_node("22")
+            wn.add_control("c_low", Control(ValueCondition(j, "pressure", "<", 82.0), ControlAction(p, "status", 0)))
+            wn.add_control("c_high", Control(ValueCondition(j, "pressure", ">", 86.0), ControlAction(p, "status", 1)))
+        return wn
     wn = wntr.network.WaterNetworkModel()
     wn.add_reservoir("R", base_head=50)
     wn.add_junction("A", base_demand=0.0, elevation=0)
@@ -122,7 +134,7 @@ def binfile_vs_toolkit(tier, seed, shard, nshards):
     import wntr.epanet.toolkit as tk
     from wntr.epanet.util import EN
     _quiet()
-    nets = COMMON[:6] if tier == "quick" else COMMON
+    nets = COMMON[:8] if tier == "quick" else COMMON
     evals, distinct, failures, samples = 0, set(), [], []
     TOL = 2e-5        # float32 output file vs float32 toolkit values
     with Scratch() as d:
@@ -193,7 +205,7 @@ def binfile_vs_toolkit(tier, seed, shard, nshards):
 def unit_independence(tier, seed, shard, nshards):
     import wntr
     _quiet()
-    nets = UNIT_NETS[:10] if tier == "quick" else UNIT_NETS
+    nets = UNIT_NETS[:12] if tier == "quick" else UNIT_NETS
     TOL = 3e-3
     evals, distinct, failures, samples = 0, set(), [], []
     with Scratch() as d:
